@@ -145,7 +145,9 @@ def S(scn):
     t = {}
     t["faults"] = {(f[0], f[1], f[2]): f[3] for f in scn["faults"]}
     t["rejects"] = {(a[0], a[1]) for a in scn["rejects"]}
-    t["reenter"] = {(r[0], r[1]): r[2] for r in scn["reenter"]}
+    t["reenter"] = {}
+    for r in scn["reenter"]:
+        t["reenter"].setdefault((r[0], r[1]), []).append(r[2])
     t["exc"] = set(scn["exc"])
     t["strfails"] = set(scn["strfails"])
     t["levels"] = {int(k): v for k, v in scn["levels"].items()}
@@ -285,8 +287,7 @@ def spec_run(scn):
                                 else:
                                     pending[h].append(i)
                             else:
-                                j = t["reenter"].get((i, h))
-                                if j is not None:
+                                for j in t["reenter"].get((i, h), []):
                                     # the logger used from inside its own sink: detected, reported as an error
                                     inner = spec_outcome(t, h, j, False)
                                     ierr = inner[1] if inner[0] == "failed" else \
@@ -296,6 +297,7 @@ def spec_run(scn):
                                             report(events, h, j, ierr, "m")
                                         else:
                                             err = ierr           # escapes from the sink
+                                            break
                                 if err is None:
                                     err = spec_sink_write(t, scn, h, i, sinks, tasks)
                         if err is not None:
@@ -462,8 +464,7 @@ class Impl:
         """common body of every synchronous sink"""
         i = message.record["extra"]["i"]
         c = self.t["handlers"][h]
-        j = self.t["reenter"].get((i, h))
-        if j is not None:
+        for j in self.t["reenter"].get((i, h), []):
             self.log(j)                       # the logger used from inside its own sink
         self.fault(i, h, "write")
         self.last_i[h] = i
@@ -513,6 +514,9 @@ class Impl:
             # faults of the (synchronous) `write` stage cannot be injected into a coroutine function
         else:
             class H(logging.Handler):
+                def createLock(self):
+                    self.lock = None      # a deadlocked scenario must not block logging.shutdown() at exit
+
                 def emit(self, record):
                     class M:
                         pass
@@ -645,6 +649,26 @@ def _runner(scn, box):
             shutil.rmtree(tmp, ignore_errors=True)
 
 
+_HANG_HOOK = []
+
+
+def _hang_seen():
+    """a deadlocked scenario thread may hold locks that interpreter shutdown wants (logging, multiprocessing):
+    once a hang has been seen (which is always reported as a violation, exit code 1) leave through os._exit
+    after everything has been written"""
+    if not _HANG_HOOK:
+        import atexit
+
+        def leave():
+            try:
+                sys.stdout.flush()
+                sys.stderr.flush()
+            finally:
+                os._exit(1)
+        atexit.register(leave)
+        _HANG_HOOK.append(leave)
+
+
 def run_impl(scn, timeout=WATCHDOG_S):
     """-> (status, observations); status 'ok' | 'hang'"""
     box = {"obs": []}
@@ -654,11 +678,13 @@ def run_impl(scn, timeout=WATCHDOG_S):
     th.join(timeout)
     if th.is_alive() and not box.get("cleanup"):
         sys.stderr = old
+        _hang_seen()
         return "hang", list(box["obs"]) + ["BLOCKED"]
     if th.is_alive():
         th.join(timeout)
         sys.stderr = old
         if th.is_alive():
+            _hang_seen()
             return "hang", list(box["obs"]) + ["BLOCKED-IN-CLEANUP"]
     if "exc" in box:
         raise box["exc"]
@@ -815,19 +841,19 @@ def random_scn(rng):
     if cand and rng.chance(18):
         c = rng.choice(cand)
         i = rng.below(nm)
-        j = 100 + i
-        scn["reenter"].append([i, c["id"], j])
-        if str(i) in scn["levels"]:
-            scn["levels"][str(j)] = scn["levels"][str(i)]
-        for c2 in hs:
-            if c2["id"] != c["id"]:
-                c2["filter"] = 1
-                scn["rejects"].append([j, c2["id"]])
-            elif c2["filter"] and rng.chance(20):
-                scn["rejects"].append([j, c2["id"]])
-        if rng.chance(20):
-            st = rng.choice([s for s in ("filter", "dynFormat", "formatMap") if stage_valid(s, c)])
-            scn["faults"].append([j, c["id"], st, rng.choice(ERR_NAMES)])
+        for j in ([100 + i, 200 + i] if rng.chance(40) else [100 + i]):
+            scn["reenter"].append([i, c["id"], j])
+            if str(i) in scn["levels"]:
+                scn["levels"][str(j)] = scn["levels"][str(i)]
+            for c2 in hs:
+                if c2["id"] != c["id"]:
+                    c2["filter"] = 1
+                    scn["rejects"].append([j, c2["id"]])
+                elif c2["filter"] and rng.chance(20):
+                    scn["rejects"].append([j, c2["id"]])
+            if rng.chance(20):
+                st = rng.choice([s for s in ("filter", "dynFormat", "formatMap") if stage_valid(s, c)])
+                scn["faults"].append([j, c["id"], st, rng.choice(ERR_NAMES)])
     # removal
     if rng.chance(35):
         at = rng.range(0, len(groups))
@@ -873,6 +899,10 @@ CORPUS = [
     {"handlers": [base_handler(0, filter=1), base_handler(1, catch=0, kind="standard"), base_handler(2, filter=1)],
      "faults": [], "rejects": [[100, 0], [100, 2]], "reenter": [[0, 1, 100]], "exc": [], "strfails": [],
      "levels": {}, "noloop": 0, "stderr": "ok", "groups": [[["l", 0], ["c"]], [["l", 1], ["c"]]]},
+    # a sink that logs to its own handler twice in one write (the first detection must not disarm the second)
+    {"handlers": [base_handler(0, kind="streamFlush")], "faults": [], "rejects": [],
+     "reenter": [[0, 0, 100], [0, 0, 200], [1, 0, 101]], "exc": [], "strfails": [], "levels": {},
+     "noloop": 0, "stderr": "ok", "groups": [[["l", 0], ["c"]], [["l", 1], ["c"]], [["l", 2], ["c"]]]},
     # coroutine sink: failing body with catch=True and catch=False; and without an event loop
     {"handlers": [base_handler(0, kind="coroutine"), base_handler(1, kind="coroutine", catch=0)],
      "faults": [[0, 0, "coroBody", "ValueError"], [0, 1, "coroBody", "KeyError"]], "rejects": [], "reenter": [],
@@ -968,14 +998,20 @@ def run(ctx):
 
     lines = [line_of(s) for _, s in scns]
     t0 = time.time()
-    model = drv.run(lines)
-    ctx.note("model driver: %d scenarios in %.1fs" % (len(lines), time.time() - t0))
+    try:
+        model = drv.run(lines)
+        ctx.note("model driver: %d scenarios in %.1fs" % (len(lines), time.time() - t0))
+    except core.DriverError as e:
+        # the model no longer builds (a shape the extractor does not recognise): broken tie; the direct
+        # oracle below still looks for a failing input
+        ctx.broke("driver:C04 (model does not build against the extracted shape)", str(e))
+        model = [None] * len(lines)
     hangs = 0
     for (origin, scn), mo in zip(scns, model):
         if mo == "bad-op":
             raise RuntimeError("driver rejected scenario line: " + line_of(scn))
-        model_obs = mo.split("|")
-        if scn["stderr"] not in ("ok", "absent", "OSError") and "BLOCKED" in mo:
+        model_obs = mo.split("|") if mo is not None else None
+        if scn["stderr"] not in ("ok", "absent", "OSError") and (mo is None or "BLOCKED" in mo):
             continue
         status, obs = run_impl(scn)
         ctx.case(line_of(scn), nontrivial=is_nontrivial(scn))
@@ -1018,6 +1054,11 @@ def run(ctx):
 
 
 def replay(ctx, rep):
+    if "replay" not in rep:
+        print("no failing input was recorded; what no longer checked:")
+        for b in rep.get("broken_obligations", []):
+            print("  -", b.get("name") if isinstance(b, dict) else b)
+        return 1
     r = rep["replay"]
     scn = r["scenario"]
     status, obs = run_impl(scn)
